@@ -92,6 +92,21 @@ Keys(d1, d2, d3, th) ==
          km2 |-> ExpLabel(hs, "ServerMAC", Cat(<<>>)),
          km3 |-> ExpLabel(hs, "ClientMAC", Cat(<<>>))]
 
+\* ---- dependency analysis (C17) ----------------------------------------------
+\* The tapes a term depends on: structural recursion over every constructor.
+RECURSIVE Tapes(_)
+Tapes(t) ==
+    CASE t[1] = "rnd" -> {t[2]}
+      [] t[1] \in {"atom", "lit", "zero", "i2", "gbg", "none"} -> {}
+      [] t[1] = "cat" -> UNION {Tapes(t[2][i]) : i \in 1..Len(t[2])}
+      [] t[1] = "lp" -> Tapes(t[3])
+      [] t[1] \in {"hash", "extract", "h2c", "okey", "kdk", "kpk", "inv"} -> Tapes(t[2])
+      [] t[1] \in {"hmac", "xor", "kdhg"} -> Tapes(t[2]) \cup Tapes(t[3])
+      [] t[1] = "expand" -> Tapes(t[2]) \cup Tapes(t[3])
+      [] t[1] = "ksf" -> Tapes(t[3])
+      [] t[1] = "oel" -> Tapes(t[2]) \cup UNION {Tapes(k) : k \in BagToSet(t[3])}
+      [] t[1] = "kdh" -> UNION {Tapes(x) : x \in t[2]}
+
 IdEff(opt, pk) == IF opt = NoneV THEN pk ELSE opt      \* absent identity = static public key
 CtxEff(opt)    == IF opt = NoneV THEN Atom(0) ELSE opt \* absent context = empty string
 \* KSF parameter: 0 = absent, 1 = the default instance passed explicitly, k >= 2 = alternative
